@@ -124,7 +124,7 @@ def run(ck):
                         ck.seen('fault.op_x_endpoint', (hit[0]['msg']['name'], e))
                         ck.nontrivial(('fault', name, e, k, errno))
     # random walks (the C09 workload) with the SAD monitor
-    nw = 600 if not ck.thorough() else 30000
+    nw = 600 if not ck.thorough() else 150000
     rng = ck.rng('walks', ck.shard[0])
     for w in range(nw):
         if not ck.mine(w):
